@@ -118,7 +118,7 @@ void mutex_release(SMutex *M) {
 
 namespace sim {
 namespace shim {
-int fail_create_kth = 0, fail_key_create_kth = 0, fail_mutex_lock_kth = 0;
+int fail_create_kth = 0, fail_key_create_kth = 0, fail_mutex_lock_kth = 0, fail_mutex_trylock_kth = 0, fail_setname_kth = 0;
 int mutex_lock_failures[MAXT] = {0};
 int last_created(int kind) { Task *t = cur(); return t ? last_created_by[t->id][kind] : -1; }
 int created_count(int kind) { return created[kind]; }
@@ -150,7 +150,7 @@ void shim_run_begin() {
   memset(last_created_by, -1, sizeof last_created_by);
   memset(created, 0, sizeof created);
   n_dtor_calls = 0;
-  shim::fail_create_kth = 0; shim::fail_key_create_kth = 0; shim::fail_mutex_lock_kth = 0;
+  shim::fail_create_kth = 0; shim::fail_key_create_kth = 0; shim::fail_mutex_lock_kth = 0; shim::fail_mutex_trylock_kth = 0; shim::fail_setname_kth = 0;
   for (int i = 0; i < MAXT; i++) shim::mutex_lock_failures[i] = 0;
 }
 void shim_run_end() {}
@@ -235,6 +235,7 @@ int simk_pthread_mutex_trylock(pthread_mutex_t *m) {
   yield_point();
   if (!cur()) return 0;
   SMutex *M = get_mutex(m, "pthread_mutex_trylock");
+  if (shim::fail_mutex_trylock_kth > 0 && --shim::fail_mutex_trylock_kth == 0) { fired(ST_SYSCALL); shim::mutex_lock_failures[cur()->id]++; ev("mutex_trylock_fail", M->num); return EAGAIN; }
   maybe_spurious();
   if (M->owner != -1) { ev("mutex_trylock_busy", M->num); return EBUSY; }
   M->owner = cur()->id;
@@ -544,6 +545,7 @@ int simk_pthread_setname_np(pthread_t th, const char *name) {
   if (!t) return ESRCH;
   if (strlen(name) > 15) return ERANGE;
   if (t->state == T_FINISHED || t->state == T_DEAD) return ESRCH;
+  if (shim::fail_setname_kth > 0 && --shim::fail_setname_kth == 0) { fired(ST_SYSCALL); ev("thread_setname_fail", t->id); return EPERM; }
   ev("thread_setname", t->id);
   return 0;
 }
